@@ -290,7 +290,7 @@ int disasm_powerpc(
           {
             dot = ".";
           }
-          snprintf(instruction, length, "%s%s fp%d, fp%d, fp%d", dot, instr, rd, ra, rb);
+          snprintf(instruction, length, "%s%s fp%d, fp%d, fp%d", instr, dot, rd, ra, rb);
           break;
         case OP_FRT_FRA_FRC:
           if ((table_powerpc[n].flags & FLAG_DOT) &&
@@ -298,7 +298,7 @@ int disasm_powerpc(
           {
             dot = ".";
           }
-          snprintf(instruction, length, "%s%s fp%d, fp%d, fp%d", dot, instr, rd, ra, rc);
+          snprintf(instruction, length, "%s%s fp%d, fp%d, fp%d", instr, dot, rd, ra, (opcode >> 6) & 0x1f);
           break;
         case OP_FRT_FRA_FRC_FRB:
           if ((table_powerpc[n].flags & FLAG_DOT) &&
@@ -306,7 +306,7 @@ int disasm_powerpc(
           {
             dot = ".";
           }
-          snprintf(instruction, length, "%s%s fp%d, fp%d, fp%d, fp%d", instr, dot, rd, ra, rc, rb);
+          snprintf(instruction, length, "%s%s fp%d, fp%d, fp%d, fp%d", instr, dot, rd, ra, (opcode >> 6) & 0x1f, rb);
           break;
         case OP_BF_FRA_FRB:
           bf = (opcode >> 23) & 0x7;
